@@ -41,6 +41,7 @@ FIXED = [
     ('D28', ['C11', 'C05', 'C09'], 'SyncBlocker::unpark sets its flag before it wakes the waiter', 'a notified Condvar waiter re-locking the mutex (cancel ignored) is resumed by a cancel between the unlocker\'s blocker.unpark() and its unparked.store(true): the token is wiped, is_unparked() is still false, the waiter parks again for ever, mutex never released (residual of the D12 repair; relock / cvc with a stall at SYNCBLOCKER_UNPARK_MID +fire)'),
     ('D2io', ['C18', 'C17', 'C09'], 'a timed socket io reports its timeout also if the timer fired before', 'timed socket I/O: add_io_timer arms the timer before io_data.co.store(co); subscribing thread delayed >= the timeout in between with the selector on another worker: the timer fires into the empty slot, the time-out is lost, the operation blocks for ever (class io_timer_fired_before_publish; was a known finding until the repair)'),
     ('D29', ['C18', 'C09', 'C17'], 'cancelling a timed socket io disarms its timer', 'cancel of a coroutine blocked in a timed recv on a shared socket (Arc<UdpSocket>): the timer of the cancelled operation stays armed and fails a later operation on that socket with TimedOut long before its own time-out (iocant: "recv #0 with a 14ms time-out failed with TimedOut after 3.1ms")'),
+    ('D30', ['C16', 'C14', 'C13'], 'Cqueue::poll re-checks the count of select coroutines after registering', 'poll(None) (select!, the drain of Cqueue::drop) sleeps for ever: the poller consumed the final event of the last select coroutine before that one decremented the count, saw queue empty + count != 0, and the decrement + wake-up fell between its look at the count and its registration (thorough cq, ~1 in 150 000 executions; 3 of 1.1 M in the first thorough sweep)'),
 ]
 
 KNOWN = [
